@@ -1,7 +1,7 @@
 SPECIFICATION Spec
 CONSTANTS
 NReady = 0 NGet = 1 NCons = 0 MaxObs = 2 GetFix = TRUE Variant = "asis" Dir = TRUE
-Scripts <- ScriptsBig Steps <- StepsBig Horizon = 3800
+Scripts <- ScriptsBig StepSets <- StepsBig Horizon = 3800
 INVARIANT NotBad
 
 CHECK_DEADLOCK FALSE
